@@ -12,11 +12,12 @@ import random
 from vf.bounded import Tally
 from vf.pyvc import extract
 from vf import repro_model as rm
+from vf import tricky
 
 MOD = "debian._deb822_repro.parsing"
 
 NEWVALS = ["x", "x y", "m1\n m2", "\n only\n cont", "t\n# c\n u", "a  b\tc   d", "  lead and trail\t ", "x\n  two  spaces \n\ttab\t.",
-           ": colon", "é  ü", "v #c", "\n .\n  x"]
+           ": colon", "é  ü", "v #c", "\n .\n  x"] + tricky.VALUE_BITS + ["m\n " + b for b in tricky.VALUE_BITS[:14]]
 
 
 def norm(v):
@@ -64,6 +65,7 @@ def run(ctx):
             doc = doc.rstrip("\n") + rng.choice(["  ", "\t"])        # unterminated last line with trailing blanks
         try:
             d = repro.parse_deb822_file(doc.splitlines(True))
+            twin, twin_text = repro.parse_deb822_file(doc.splitlines(True)), doc     # a second, untouched document from the same text
         except Exception as e:
             t.failed("generated valid document rejected: %r" % (e,), document=doc)
             break
@@ -157,6 +159,10 @@ def run(ctx):
                 break
             text = out
         if not ok or t.fail:
+            break
+        if not t.fail and twin.dump() != twin_text:
+            t.failed("editing one document changed another document parsed from the same text (shared state)", document=twin_text,
+                     operations=ops, twin_dump=twin.dump())
             break
         t.case(key=(doc, str(ops)) if ops else None, sample={"document": doc, "operations": ops} if len(ops) == 2 else None)
     # emptying a paragraph field by field and adding a field to it afterwards: the new field stands where the paragraph was
